@@ -117,7 +117,8 @@ SetupBuild ==
 \* extrapolated cycles look at it); a fresh object starts it in the mode setup() chose.  F20: solve() re-armed the COMBINED
 \* strategy only AFTER initializeSolution(), so a second solve after a switch ran its FMG start-up with the stale mode
 StartMode(f) == IF opts.ext # 0 THEN f ELSE TRUE
-FgsAtStart == IF Fixed("F20") /\ opts.ext = 3 THEN TRUE ELSE fgs
+\* F5: solve() re-arms the strategy at all; F20: it does so before the start-up (both repaired = the current code)
+FgsAtStart == IF Fixed("F5") /\ Fixed("F20") /\ opts.ext = 3 THEN TRUE ELSE fgs
 StartIdeal == IF opts.fmg THEN <<"fmg", built.lv, StartMode(FgsOfSetup(opts.ext))>> ELSE <<"zero">>
 StartCode ==
   IF ~opts.fmg THEN <<"zero">>
